@@ -978,6 +978,16 @@ impl Opcode for SLoad {
         let storage = vm.state()?.storage_mut();
         let result = storage.load(&key);
 
+        // A load wraps both its key and the stored value, so a load whose key is itself a load
+        // doubles in size. Like any other instruction result it is subject to the value size
+        // limit, the storage itself having already recorded that the key was read
+        let result = if result.size() > vm.config().value_size_limit {
+            let instruction_pointer = vm.instruction_pointer()?;
+            vm.build().value(instruction_pointer, Provenance::Execution)
+        } else {
+            result
+        };
+
         // Write it into the stack
         vm.stack_handle()?.push(result)?;
 
